@@ -336,6 +336,13 @@ HANDMADE = [
     {"catalogue": {"a": {"instances": None, "inputs": ["x"], "req": ["1"], "opt": [],
                          "body": {"1": {"k": "in", "n": "x", "br": [{"k": "ret", "e": "acc", "c": 0}]}}}},
      "unknown": ["z"], "request": ["a", "a"], "fieldNames": []},
+    # ... and the required line of that form that nobody reads is unimplemented: the return is NOT solved, in either order
+    {"catalogue": {"a": {"instances": None, "inputs": [], "req": ["1", "2"], "opt": [],
+                         "body": {"1": {"k": "in", "n": "b.x", "br": [{"k": "ret", "e": "acc", "c": 0}]},
+                                  "2": {"k": "ln", "n": "b.1", "br": [{"k": "ret", "e": "acc", "c": 0}]}}},
+                   "b": {"instances": None, "inputs": ["x"], "req": ["2"], "opt": ["1"],
+                         "body": {"1": {"k": "ret", "e": "const", "c": 1}, "2": {"k": "unimpl"}}}},
+     "unknown": ["z"], "request": ["a"], "fieldNames": []},
     # inputs read through the Mapping API of the accessor (`x in i`, `i.get(x, 0)`): still reads -- an absent input is MISSING, not "not there";
     # line 2 makes the solver ask for x after line 1 has been tried
     {"catalogue": {"a": {"instances": None, "inputs": ["x", "y"], "req": ["1", "2", "3"], "opt": [],
